@@ -154,9 +154,12 @@ def check_histories(pid, hists, fields, acceptor=None, known=(), max_report=3, w
     n_div = len(divergent)
     divergent.sort(key=lambda t: (t[0], len(hists[t[1]]['ops'])))
     reported_rejecting = set()
+    unreproduced = []      # rejected in the batch run, not when re-run alone in a fresh process
+    tries = 0
     for rank, i, dv, v0 in divergent:
-        if len(violations) >= max_report:
+        if len(violations) >= max_report or tries >= 4 * max_report + 8:
             break
+        tries += 1
         h = hists[i]
 
         def still_fails(h2, need_reject=bool(v0)):
@@ -186,6 +189,13 @@ def check_histories(pid, hists, fields, acceptor=None, known=(), max_report=3, w
             reported_rejecting.add(i)
             violations.append({'replay': payload, 'found_input': True,
                                'what': 'property violated on the implementation: ' + verdict})
+        elif v0 and len(unreproduced) < 40:
+            # the acceptor rejected this history in the batch run but accepts it re-run on its own:
+            # the failure depends on what the worker process did before (process-wide state in the
+            # library).  Keep looking for a history that fails by itself; remember this one.
+            payload['note'] = ('rejected in the batch run (%s); not reproduced when the history runs alone in a fresh process: '
+                               'the failure depends on earlier calls of the same process' % v0[:200])
+            unreproduced.append((payload, dv, v0))
         else:
             found = None
             if search is not None:
@@ -198,6 +208,11 @@ def check_histories(pid, hists, fields, acceptor=None, known=(), max_report=3, w
                 violations.append({'replay': payload, 'found_input': False,
                                    'what': 'model/implementation correspondence broke at %s (%s); acceptor satisfied on the shrunk case'
                                            % (dv['line'][:80], dv.get('field'))})
+    if unreproduced and not any(v.get('found_input') for v in violations):
+        for payload, dv, v0 in unreproduced[:max(1, max_report - len(violations))]:
+            violations.append({'replay': payload, 'found_input': False,
+                               'what': 'property violated in the batch run (%s) but not when the history runs alone: the failure '
+                                       'depends on earlier calls of the same process' % v0[:160]})
     # acceptor runs on every history as well (cheap): an implementation that agrees with the
     # model but violates the property would mean the model itself violates it
     acc_fail = 0
